@@ -23,6 +23,11 @@ _real = {name: getattr(os, name) for name in
          ("replace", "rename", "unlink", "remove", "mkdir", "rmdir", "fsync", "truncate", "link",
           "symlink")}
 _FD_PATHS = {}
+_RFD_PATHS = {}          # raw descriptors opened read-only below the scratch root
+_real_fd = {name: getattr(os, name) for name in ("write", "read", "close", "lseek")}
+for _n in ("pread", "pwrite", "writev"):
+    if hasattr(os, _n):
+        _real_fd[_n] = getattr(os, _n)
 _HASH = re.compile(r"^(xdg/xarray-ceos-alos2/)([0-9a-f]{16,})(/|$)")
 _installed = [False]
 
@@ -38,7 +43,17 @@ def rel(path):
     r = path[len(root) + 1:] if root and path.startswith(root + "/") else path
     m = _HASH.match(r)
     if m:
-        r = m.group(1) + SIM.alias(m.group(2)) + m.group(3) + r[m.end():]
+        tail = r[m.end():]
+        if tail and not tail.endswith(".index"):
+            # temp / lock / marker names may embed a pid, a random suffix or a time stamp: they
+            # are known to the log by order of first appearance only (keeps one seed = one log)
+            stem = tail
+            for suffix in (".tmp", ".lock", ".part", ".bak", ".size", ".json"):
+                if tail.endswith(suffix):
+                    stem = suffix
+                    break
+            tail = SIM.alias("name:" + tail, "T") + ("" if stem == tail else stem)
+        r = m.group(1) + SIM.alias(m.group(2)) + m.group(3) + tail
     return r
 
 
@@ -78,6 +93,7 @@ class Gate(io.RawIOBase):
         self.actor = SIM.actor
         self.owner = (SIM.actor, SIM.epoch)
         _FD_PATHS.setdefault(fd, path)
+        _GATED.add(fd)
         self.plan = self._match_plan()
 
     def _match_plan(self):
@@ -134,7 +150,7 @@ class Gate(io.RawIOBase):
             if plan is not None and isinstance(plan["at"], int) and self.n + k >= plan["at"]:
                 k = max(plan["at"] - self.n, 0)
                 if k:
-                    os.write(self.fd, b[total:total + k])
+                    _real_fd["write"](self.fd, b[total:total + k])
                     self.n += k
                     total += k
                 self._fire(plan)  # raises for kill / enospc; returns after a pause
@@ -144,7 +160,7 @@ class Gate(io.RawIOBase):
             except OSError:     # simulated disk-full at this crash point: it stays full
                 self.full = True
                 raise
-            os.write(self.fd, b[total:total + k])
+            _real_fd["write"](self.fd, b[total:total + k])
             self.n += k
             total += k
             SIM.event("write", self.rel, self.n)
@@ -160,11 +176,12 @@ class Gate(io.RawIOBase):
                         and not getattr(self, "_finalizing", False):
                     self._fire(plan)
             finally:
+                _GATED.discard(self.fd)
+                _FD_PATHS.pop(self.fd, None)
                 try:
-                    os.close(self.fd)
+                    _real_fd["close"](self.fd)
                 except OSError:
                     pass
-                _FD_PATHS.pop(self.fd, None)
                 if not self.owner_dead() and not getattr(self, "_finalizing", False):
                     SIM.event("close-w", self.rel, self.n, yield_=False)
                 super().close()
@@ -296,7 +313,83 @@ def sim_os_open(path, flags, mode=0o777, *, dir_fd=None):
         fd = _real_os_open(path, flags, mode)
         _FD_PATHS[fd] = p
         return fd
-    return _real_os_open(path, flags, mode)
+    fd = _real_os_open(path, flags, mode)
+    if not flags & os.O_DIRECTORY:
+        SIM.event("open", rel(p))
+        _RFD_PATHS[fd] = [rel(p), 0]
+    return fd
+
+
+# raw-descriptor I/O (os.write / os.read / os.pread / ...) on descriptors that were opened through
+# the seam: same crash points, same "a dead actor's writes do not reach the disk", same request log
+def sim_os_write(fd, data):
+    if fd in _FD_PATHS and not SIM.quiet:
+        if _gated_fd(fd):
+            return _real_fd["write"](fd, data)
+        if SIM.is_dead():
+            return len(data)
+        SIM.crash_point("write", rel(_FD_PATHS[fd]))
+        n = _real_fd["write"](fd, data)
+        SIM.event("write", rel(_FD_PATHS[fd]), n)
+        return n
+    return _real_fd["write"](fd, data)
+
+
+_GATED = set()           # descriptors wrapped by a Gate: the Gate does the bookkeeping
+
+
+def _gated_fd(fd):
+    return fd in _GATED
+
+
+def sim_os_pwrite(fd, data, offset):
+    if fd in _FD_PATHS and not SIM.quiet:
+        if SIM.is_dead():
+            return len(data)
+        SIM.crash_point("write", rel(_FD_PATHS[fd]))
+        n = _real_fd["pwrite"](fd, data, offset)
+        SIM.event("write", rel(_FD_PATHS[fd]), n)
+        return n
+    return _real_fd["pwrite"](fd, data, offset)
+
+
+def sim_os_read(fd, n):
+    ent = _RFD_PATHS.get(fd)
+    if ent is not None and not SIM.quiet:
+        SIM.event("read", ent[0], ent[1], n)
+        SIM.read_request("/" + ent[0])
+        out = _real_fd["read"](fd, n)
+        ent[1] += len(out)
+        return out
+    return _real_fd["read"](fd, n)
+
+
+def sim_os_pread(fd, n, offset):
+    ent = _RFD_PATHS.get(fd)
+    if ent is not None and not SIM.quiet:
+        SIM.event("read", ent[0], offset, n)
+        SIM.read_request("/" + ent[0])
+    return _real_fd["pread"](fd, n, offset)
+
+
+def sim_os_lseek(fd, pos, how):
+    out = _real_fd["lseek"](fd, pos, how)
+    ent = _RFD_PATHS.get(fd)
+    if ent is not None and not SIM.quiet:
+        ent[1] = out
+        SIM.event("seek", ent[0], out)
+    return out
+
+
+def sim_os_close(fd):
+    ent = _RFD_PATHS.pop(fd, None)
+    if ent is not None and not SIM.quiet:
+        SIM.event("close", ent[0], yield_=False)
+    if fd in _FD_PATHS and fd not in _GATED:
+        p = _FD_PATHS.pop(fd)
+        if not SIM.quiet and not SIM.is_dead():
+            SIM.event("close-w", rel(p), "os", yield_=False)
+    return _real_fd["close"](fd)
 
 
 def _mutator(name, npaths):
@@ -345,6 +438,14 @@ def install():
                     ("rmdir", 1), ("truncate", 1), ("link", 2), ("symlink", 2)):
         setattr(os, name, _mutator(name, n))
     os.fsync = sim_fsync
+    os.write = sim_os_write
+    os.read = sim_os_read
+    os.close = sim_os_close
+    os.lseek = sim_os_lseek
+    if "pwrite" in _real_fd:
+        os.pwrite = sim_os_pwrite
+    if "pread" in _real_fd:
+        os.pread = sim_os_pread
     _install_memory_events()
 
 
